@@ -408,9 +408,9 @@ func (g lxGen) journal(maxEntries int) string {
 	}
 	eol := "\n"
 	switch g.r.IntN(12) {
-	case 0:
+	case 0, 1, 2:
 		eol = "\r\n"
-	case 1:
+	case 3:
 		eol = "\r"
 	}
 	var sb strings.Builder
